@@ -35,10 +35,12 @@ class SimClock:
     reads = 0
     lo = EPOCH  # smallest / largest instant handed out since reset
     hi = EPOCH
-    total_advance = _dt.timedelta(0)  # simulated time covered (forward moves)
+    total_advance = _dt.timedelta(0)  # simulated time covered (forward moves) since the last reset
+    cumulative = _dt.timedelta(0)  # ... summed over the resets of one scenario
 
     @classmethod
     def reset(cls, t=None, step_us=0):
+        cls.cumulative += cls.total_advance
         cls.t = t or EPOCH
         cls.step = _dt.timedelta(microseconds=step_us)
         cls.reads = 0
